@@ -81,3 +81,12 @@ Proof. reflexivity. Qed.
 Theorem C14_erdos_renyi_signed_reading_accepts_half : forall a b p, (0 <= p)%Q -> (two64 / 2 <= combine_bits a b)%Z -> er_edge (combine_i64 a b) p = true.
 Proof. exact er_edge_signed_accepts_upper_half. Qed.
 Print Assumptions C14_erdos_renyi_pair_number_in_unit_interval. Print Assumptions C14_erdos_renyi_edge_law. Print Assumptions C14_erdos_renyi_signed_reading_accepts_half.
+From Coq Require Import PrimFloat.
+(* over binary64 the stated duration is overrun by one step for steps that are not binary fractions (0.1 here: 0x1.999999999999ap-4 is the double
+   nearest 0.1, 0x1p-1 is 0.5): the real-number theorem C14_timed_edges does not transfer to the count-down the code performs *)
+Theorem C14_float_countdown_keeps_an_extra_step_refuted :
+  float_edge_kept 5 0x1p-1%float 0x1.999999999999ap-4%float = true /\ (inject_Z 5 * (1 # 10) == 1 # 2)%Q.
+Proof. exact float_countdown_keeps_an_extra_step. Qed.
+Theorem C14_float_countdown_exact_for_binary_steps : float_edge_kept 4 0x1p-1%float 0x1p-3%float = false /\ float_edge_kept 3 0x1p-1%float 0x1p-3%float = true.
+Proof. exact float_countdown_exact_for_binary_steps. Qed.
+Print Assumptions C14_float_countdown_keeps_an_extra_step_refuted. Print Assumptions C14_float_countdown_exact_for_binary_steps.
